@@ -34,7 +34,16 @@ def plan(tier, seed):
 
 
 def make_code(rng, ctx):
-    k = rng.randrange(9)
+    k = rng.randrange(10)
+    if k == 9:
+        # long strings and block comments: text beginning with several line breaks, lower-level closers inside, glyphs on later lines
+        ctx.feature('code_long_strings')
+        parts = []
+        for _ in range(rng.randint(1, 4)):
+            lvl = b'=' * rng.choice((0, 0, 1, 2))
+            body = rng.choice((b'\n\ntext', b'\n\n\n', b'\r\n\r\nx', b'\nx', b'x\n\ny', b']' + b'x', b'a]]b' if lvl else b'ab', b'\x8e\n\x97'))
+            parts.append(rng.choice((b's=', b'--')) + b'[' + lvl + b'[' + body + b']' + lvl + b']\n')
+        return b''.join(parts) + carts.simple_lua(rng, 40)
     if k == 0:
         ctx.feature('code_empty')
         return b''
@@ -187,6 +196,13 @@ def _one_cart(ctx, rng, workdir, verbosity):
         except Exception as e:
             ctx.inconclusive_because('generator produced code picotool does not lex: %r' % (e,))
             return
+    if rng.random() < 0.15:
+        # the cart's sprite sheet is replaced by another Gfx object (the library allows assigning sections; the map keeps the object
+        # it was created with): the cart's gfx is what game.gfx holds now
+        from pico8.gfx.gfx import Gfx
+        g.gfx = Gfx.from_bytes(carts.random_bytes(rng, 8192), version=version or 8)
+        ctx.feature('gfx_object_replaced')
+        case['history'] = 'game.gfx was replaced by another Gfx object before saving'
     if resave:
         # HISTORY: the same Game object was saved before, then edited through the APIs, and is saved again
         try:
@@ -301,7 +317,7 @@ def gates(m, tier):
               'regions_structured', 'regions_zero', 'regions_ff', 'regions_defaultish'):
         if f.get(k, 0) < 5:
             missed.append('%s seen %d times' % (k, f.get(k, 0)))
-    for k in ('verbosity_debug', 'verbosity_quiet', 'verbosity_normal', 'saved_edited_saved_again', 'edit_map_lower_half',
+    for k in ('code_long_strings', 'gfx_object_replaced', 'verbosity_debug', 'verbosity_quiet', 'verbosity_normal', 'saved_edited_saved_again', 'edit_map_lower_half',
               'code_object_of_another_version', 'version0_cart_with_foreign_code_object'):
         if f.get(k, 0) < 10:
             missed.append('%s seen %d times' % (k, f.get(k, 0)))
